@@ -343,7 +343,80 @@ macro_rules! dt_check {
     }};
 }
 
+/// The validating constructors accept exactly the dates of the proleptic Gregorian calendar (Calendar.ISO) and the times of
+/// a 24-hour clock, and build what was asked for. The fields are the case's own, folded towards the valid ranges so that
+/// day 29..31, hour 24, minute / second 60, microsecond 10^6 and precision 7 are met all the time.
+fn constructors_check(c: &DtCase) -> Result<bool, (String, String)> {
+    let leap = |y: i64| (y.rem_euclid(4) == 0 && y.rem_euclid(100) != 0) || y.rem_euclid(400) == 0;
+    let (y, m, d) = (c.year, if c.month % 3 == 0 { c.month } else { 1 + c.month % 12 }, if c.day % 4 == 0 { c.day } else { 1 + c.day % 31 });
+    let (h, mi, sec) = (if c.hour % 4 == 0 { c.hour } else { c.hour % 25 }, c.minute % 61, c.second % 61);
+    let (us, prec) = (c.us, c.prec % 8);
+    if ElixirDate::is_leap_year(y) != leap(y as i64) {
+        return Err(("leap-year-wrong".into(), format!("is_leap_year({y}) = {}", ElixirDate::is_leap_year(y))));
+    }
+    let dim = match m {
+        1 | 3 | 5 | 7 | 8 | 10 | 12 => 31,
+        4 | 6 | 9 | 11 => 30,
+        2 if leap(y as i64) => 29,
+        2 => 28,
+        _ => 0,
+    };
+    let date_ok = d >= 1 && d <= dim;
+    let time_ok = h <= 23 && mi <= 59 && sec <= 59 && us <= 999_999 && prec <= 6;
+    // a leap second is the one value on which calendars differ: either answer is taken for second 60
+    let time_open = sec == 60 && h <= 23 && mi <= 59 && us <= 999_999 && prec <= 6;
+    let bad = |what: &str, got: String| Err(("validating-constructor-wrong".to_string(), format!("{what}({y},{m},{d} {h}:{mi}:{sec}.{us}/{prec}) gave {got}; the date is {} and the time is {}", if date_ok { "valid" } else { "invalid" }, if time_ok { "valid" } else { "invalid" })));
+    match ElixirDate::try_new(y, m, d) {
+        Some(x) if date_ok && (x.year, x.month, x.day) == (y, m, d) => {
+            // and it survives the term and the wire
+            let back = erltf::encode(&OwnedTerm::from(x.clone())).ok().and_then(|b| erltf::decode(&b).ok()).and_then(|t| ElixirDate::from_term(&t));
+            if back.as_ref() != Some(&x) {
+                return bad("ElixirDate::try_new + wire", format!("{:?}", back));
+            }
+        }
+        None if !date_ok => {}
+        r => return bad("ElixirDate::try_new", format!("{:?}", r)),
+    }
+    if !time_open {
+        match ElixirTime::try_new(h, mi, sec, us, prec) {
+            Some(x) if time_ok && (x.hour, x.minute, x.second, x.microsecond_value, x.microsecond_precision) == (h, mi, sec, us, prec) => {}
+            None if !time_ok => {}
+            r => return bad("ElixirTime::try_new", format!("{:?}", r)),
+        }
+        let hms_ok = h <= 23 && mi <= 59 && sec <= 59;
+        match ElixirTime::try_hms(h, mi, sec) {
+            Some(x) if hms_ok && (x.hour, x.minute, x.second, x.microsecond_value) == (h, mi, sec, 0) => {}
+            None if !hms_ok => {}
+            r => return bad("ElixirTime::try_hms", format!("{:?}", r)),
+        }
+        match ElixirNaiveDateTime::try_new(y, m, d, h, mi, sec, us, prec) {
+            Some(x) if date_ok && time_ok && (x.year, x.month, x.day, x.hour, x.minute, x.second, x.microsecond_value, x.microsecond_precision) == (y, m, d, h, mi, sec, us, prec) => {
+                if (x.to_date(), x.to_time().hour, x.to_time().second) != (ElixirDate { year: y, month: m, day: d }, h, sec) {
+                    return bad("ElixirNaiveDateTime::to_date/to_time", format!("{:?} / {:?}", x.to_date(), x.to_time()));
+                }
+            }
+            None if !(date_ok && time_ok) => {}
+            r => return bad("ElixirNaiveDateTime::try_new", format!("{:?}", r)),
+        }
+        match ElixirDateTime::try_utc(y, m, d, h, mi, sec, us, prec) {
+            Some(x) if date_ok && time_ok && (x.year, x.month, x.day, x.hour, x.minute, x.second, x.microsecond_value, x.utc_offset, x.std_offset) == (y, m, d, h, mi, sec, us, 0, 0) && x.time_zone == "Etc/UTC" => {
+                let back = erltf::encode(&OwnedTerm::from(x.clone())).ok().and_then(|b| erltf::decode(&b).ok()).and_then(|t| ElixirDateTime::from_term(&t));
+                if back.as_ref() != Some(&x) {
+                    return bad("ElixirDateTime::try_utc + wire", format!("{:?}", back));
+                }
+            }
+            None if !(date_ok && time_ok) => {}
+            r => return bad("ElixirDateTime::try_utc", format!("{:?}", r)),
+        }
+    }
+    Ok(date_ok && m == 2 && d >= 28)
+}
+
 pub fn dt_oracle(c: &DtCase) -> Verdict {
+    let feb_end = match constructors_check(c) {
+        Ok(f) => f,
+        Err((signature, detail)) => return Verdict::Fail { signature, detail },
+    };
     match c.kind % 4 {
         0 => dt_check!(ElixirDate, ElixirDate { year: c.year, month: c.month, day: c.day }, DATE_FIELDS, c),
         1 => dt_check!(
@@ -394,12 +467,13 @@ pub fn dt_oracle(c: &DtCase) -> Verdict {
         info.class(["date", "time", "naive-datetime", "datetime"][(c.kind % 4) as usize])
             .class_if(mutated, "wrong-shape")
             .class_if(matches!(c.mutn, Mutn::SetInt(..) | Mutn::SetMicro(..)), "field-out-of-range")
-            .class_if(wide, "field-beyond-16-bits"),
+            .class_if(wide, "field-beyond-16-bits")
+            .class_if(feb_end, "constructor:valid-end-of-february"),
     )
 }
 
 fn dt_strategy() -> impl Strategy<Value = DtCase> {
-    let year = prop_oneof![3 => 1900i32..2100, 2 => prop::sample::select(vec![i32::MIN, -1, 0, 9999, 10000, 65536, i32::MAX]), 1 => any::<i32>()];
+    let year = prop_oneof![3 => 1900i32..2100, 2 => prop::sample::select(vec![i32::MIN, -1, 0, 9999, 10000, 65536, i32::MAX, -4, -100, -196, -200, -296, -400, -500, 4, 100, 400, 1900, 2000, 2100, 2400]), 1 => any::<i32>()];
     let us = prop_oneof![3 => 0u32..1_000_000, 1 => prop::sample::select(vec![999_999u32, 1_000_000, 65536, u32::MAX]), 1 => any::<u32>()];
     let off = prop_oneof![3 => -50000i32..50000, 1 => prop::sample::select(vec![i32::MIN, i32::MAX, 0, 65536]), 1 => any::<i32>()];
     let bad_int = prop_oneof![
